@@ -277,6 +277,12 @@ def ob_protocol(module: str, qualname: str, target_expr: str, content_name: str,
             return Outcome.ok("ast-shape", count=len(facts), facts=facts)
         failed, text = probe_faults(probe_scn)
         if not failed:
+            # the verification step is part of the protocol: the CAS probe (stale digests, a target that is not text) as well
+            failed, text2 = probe_cas()
+            if failed:
+                return Outcome.refuted("ast-shape", [Witness(what=f"{qualname}: {p} — {text2}", key=p[:60], input=p, replay={"runner": "props.fsproto:probe_cas", "args": {}}, confirmed=True) for p in probs], count=len(facts) + len(probs))
+            text = f"{text}; {text2}"
+        if not failed:
             return Outcome.undecided("ast-shape", f"{qualname}: write block has a shape this contract does not recognise ({'; '.join(probs[:3])}); fault probe: {text}")
         return Outcome.refuted("ast-shape", [Witness(what=f"{qualname}: {p} — {text}", key=p[:60], input=p, replay={"runner": "props.fsproto:probe_faults", "args": {"scenario": probe_scn}}, confirmed=True) for p in probs], count=len(facts) + len(probs))
 
@@ -385,6 +391,19 @@ def probe_cas():
             now = open(t).read()
             if r.get("status") != "error" or now != pre or not any(e.get("code") == "E_HASH" for e in r.get("errors", [])):
                 bad.append(f"{label} mode with a stale base_hash: status {r.get('status')}, file {'changed' if now != pre else 'unchanged'}")
+        # a target whose bytes are not text at all: whatever base_hash the caller holds - the digest of the empty text
+        # included (what a reader that swallows the decoding error would compute) - the content does not hash to it
+        import hashlib
+
+        blob = b"\xff\xfe\x00binary \x80\x81 not utf-8\n"
+        for label, bh in (("sha256('')", hashlib.sha256(b"").hexdigest()), ("stale digest", "0" * 64)):
+            for mode, call in (("content", dict(content=NEW)), ("changes", dict(changes={"A": 9}))):
+                with open(t, "wb") as f:
+                    f.write(blob)
+                r = asyncio.run(WriteTool().execute(target_path=t, base_hash=bh, **call))
+                now = open(t, "rb").read()
+                if r.get("status") != "error" or now != blob:
+                    bad.append(f"{mode} mode on a target holding non-UTF-8 bytes with base_hash = {label}: status {r.get('status')}, bytes {'replaced' if now != blob else 'kept'}")
         with open(t, "w") as f:
             f.write(OLD)
         r = atomic_write_octave(t, NEW, base_hash="0" * 64)
